@@ -1590,6 +1590,7 @@ pub fn int_range(s: &str) -> (i128, i128) {
         "i16" => (i16::MIN as i128, i16::MAX as i128),
         "i32" => (i32::MIN as i128, i32::MAX as i128),
         "i64" | "isize" => (i64::MIN as i128, i64::MAX as i128),
+        "i128" => (i128::MIN, i128::MAX),
         _ => (i128::MIN / 2, i128::MAX / 2),
     }
 }
